@@ -25,6 +25,28 @@ CLAIMED = {
             'chains), hash reads only the magnitude (regenerated read-set). Tie: op-by-op correspondence on random histories.',
             'hand Lean heap model + induction over op lists, regenerated read-sets, differential run of histories',
             '5 C13'),
+    'C20': ('Theorems over the model of bisect_left and the helpers: for monotone conditions / non-decreasing keys (any length, '
+            'repeats) the bisect searches equal the sequential scan; the nearest-time variant returns the earliest minimiser; the apex '
+            'helper returns the peak of a single-peaked column. Tie: exact correspondence of integer answers on synthetic and real rows.',
+            'hand Lean model + loop-invariant inductions, differential run, sequential-scan oracle',
+            '5 C20'),
+    'C16': ('Theorems over the model of danger_space for arbitrary row lists and heights: error iff out of range, bounds bracket the '
+            'first row at the range, every row strictly inside is within half the height (both sides), each bound is first/last or at '
+            'least half the height away, monotone in the height. Tie: exact correspondence of row indices on synthetic and real rows.',
+            'hand Lean model + scan inductions, differential run, property-text oracle',
+            '5 C16'),
+    'C14': ('Theorems over the model of linear_interpolation (binary-search invariant), BCPoint and DragModelMultiBC: effective BC at '
+            'every table Mach = clamped piecewise-linear interpolant of the sorted points, order independence for distinct Mach, single '
+            'point = plain model. Input non-mutation is decided by deep snapshots in the harness (by-value model cannot express identity).',
+            'hand Lean model + loop-invariant induction + sort lemmas, bit-exact differential run, snapshot oracle',
+            '5 C14'),
+    'C09': ('Theorems over the model of calculate_curve and the nearest-node binary search (any table of >= 3 strictly ascending points, '
+            'every real Mach): value at nodes, parabola through consecutive points incl. both neighbours, last three points beyond the '
+            'table; for the nine REGENERATED shipped tables a kernel-evaluated rational certificate lifted to all Mach: positive and within '
+            '5% of the linear interpolant; tables = committed reference. Tie: tables regenerated each run; bit-exact correspondence at every '
+            'node, both sides of every node and mid-point.',
+            'hand Lean model + binary-search invariant, decide +kernel certificates over Q on regenerated tables, bit-exact differential run',
+            '5 C09'),
 }
 NOT_APPLICABLE = {}
 TODO_REASON = 'check not built yet in this round (planned, see DESIGN.md section 5)'
